@@ -30,123 +30,133 @@ TR = 'transport::TransportRunner'
 def check(R):
     F = R.facts
     # ---- a --------------------------------------------------------------------
-    ifr = R.body(ES + '::is_for_rx')
-    for fld in ('exch_id:' + ES, 'role:' + ES, 'exch_id:transport::proto_hdr::ProtoHdr'):
-        ok, why = prims.field_influences_result(ifr, fld)
-        R.expect('P9', ifr.fn, f'exchange match depends on {fld.split(":")[0]} of {fld.split("::")[-1]}', ok, why, why)
-    R.expect('P9', ifr.fn, 'exchange match tests the initiator flag of the header', 'transport::proto_hdr::ProtoHdr::is_initiator' in ifr.calls_summary, 'is_initiator()', 'is_initiator not consulted')
-    eqs = [c for c in prims.compare_sites(ifr, ops=('Eq',)) if mentions(prims.sources(ifr, c[3]) | prims.sources(ifr, c[4]), 'exch_id')]
-    R.expect('P9', ifr.fn, 'exchange ids are compared for equality', len(eqs) >= 1, 'Eq', 'no equality on exch_id')
-    gx = bodies_of(F, SESS + '::get_exch_for_rx')
-    R.expect('P4', SESS + '::get_exch_for_rx', 'exchange lookup uses ExchangeState::is_for_rx', any(ES + '::is_for_rx' in b.calls_summary for b in gx), 'ok', 'is_for_rx not used')
+    with R.clause('a'):
+        pass
+        ifr = R.body(ES + '::is_for_rx')
+        for fld in ('exch_id:' + ES, 'role:' + ES, 'exch_id:transport::proto_hdr::ProtoHdr'):
+            ok, why = prims.field_influences_result(ifr, fld)
+            R.expect('P9', ifr.fn, f'exchange match depends on {fld.split(":")[0]} of {fld.split("::")[-1]}', ok, why, why)
+        R.expect('P9', ifr.fn, 'exchange match tests the initiator flag of the header', 'transport::proto_hdr::ProtoHdr::is_initiator' in ifr.calls_summary, 'is_initiator()', 'is_initiator not consulted')
+        eqs = [c for c in prims.compare_sites(ifr, ops=('Eq',)) if mentions(prims.sources(ifr, c[3]) | prims.sources(ifr, c[4]), 'exch_id')]
+        R.expect('P9', ifr.fn, 'exchange ids are compared for equality', len(eqs) >= 1, 'Eq', 'no equality on exch_id')
+        gx = bodies_of(F, SESS + '::get_exch_for_rx')
+        R.expect('P4', SESS + '::get_exch_for_rx', 'exchange lookup uses ExchangeState::is_for_rx', any(ES + '::is_for_rx' in b.calls_summary for b in gx), 'ok', 'is_for_rx not used')
 
     # ---- b --------------------------------------------------------------------
-    pr = R.body(SESS + '::post_recv')
-    adds = call_bbs(pr, SESS + '::add_exch')
-    R.cut('P2', pr, 'open a new exchange', adds, 'the message has the initiator flag', lambda: R.call_guard(pr, 'transport::proto_hdr::ProtoHdr::is_initiator'))
-    R.cut('P2', pr, 'open a new exchange', adds, 'the message kind may start an exchange', lambda: R.call_guard(pr, 'transport::exchange::MessageMeta::is_new_exchange'))
-    te, fe = field_bool_edges(pr, 'expired:' + SESS)
-    R.cut('P2', pr, 'open a new exchange', adds, 'the session is not expired', fe)
-    R.cut('P2', pr, 'open a new exchange', adds, 'no existing exchange matches', lambda: _fail_edges(R, pr, SESS + '::get_exch_for_rx'))
-    t = pr.calls(SESS + '::add_exch')[0]
-    s = prims.sources(pr, t.d['a'][2])
-    R.expect('P10', pr.fn, 'an exchange opened by a received message has the Responder role', ('agg', 'transport::exchange::Role', 'Responder') in s and ('agg', 'transport::exchange::Role', 'Initiator') not in s,
-             'Role::Responder', f'{sorted(map(str, s))[:5]}', pr.where(t.bb))
-    s = prims.sources(pr, t.d['a'][1])
-    R.expect('P10', pr.fn, 'the new exchange takes the id of the received message', mentions(s, 'exch_id') and mentions(s, 'proto'), 'rx_header.proto.exch_id', f'{sorted(map(str, s))[:5]}', pr.where(t.bb))
-    noex = [i for i, j, st in pr.stmts() if st[1].get('op') == 'agg' and st[1].get('adt') == 'error::ErrorCode' and st[1].get('var') == 'NoExchange']
-    R.expect('P2', pr.fn, 'answers to unknown exchanges are refused (NoExchange)', bool(noex), 'NoExchange constructed', 'NoExchange not constructed')
+    with R.clause('b'):
+        pass
+        pr = R.body(SESS + '::post_recv')
+        adds = call_bbs(pr, SESS + '::add_exch')
+        R.cut('P2', pr, 'open a new exchange', adds, 'the message has the initiator flag', lambda: R.call_guard(pr, 'transport::proto_hdr::ProtoHdr::is_initiator'))
+        R.cut('P2', pr, 'open a new exchange', adds, 'the message kind may start an exchange', lambda: R.call_guard(pr, 'transport::exchange::MessageMeta::is_new_exchange'))
+        te, fe = field_bool_edges(pr, 'expired:' + SESS)
+        R.cut('P2', pr, 'open a new exchange', adds, 'the session is not expired', fe)
+        R.cut('P2', pr, 'open a new exchange', adds, 'no existing exchange matches', lambda: _fail_edges(R, pr, SESS + '::get_exch_for_rx'))
+        t = pr.calls(SESS + '::add_exch')[0]
+        s = prims.sources(pr, t.d['a'][2])
+        R.expect('P10', pr.fn, 'an exchange opened by a received message has the Responder role', ('agg', 'transport::exchange::Role', 'Responder') in s and ('agg', 'transport::exchange::Role', 'Initiator') not in s,
+                 'Role::Responder', f'{sorted(map(str, s))[:5]}', pr.where(t.bb))
+        s = prims.sources(pr, t.d['a'][1])
+        R.expect('P10', pr.fn, 'the new exchange takes the id of the received message', mentions(s, 'exch_id') and mentions(s, 'proto'), 'rx_header.proto.exch_id', f'{sorted(map(str, s))[:5]}', pr.where(t.bb))
+        noex = [i for i, j, st in pr.stmts() if st[1].get('op') == 'agg' and st[1].get('adt') == 'error::ErrorCode' and st[1].get('var') == 'NoExchange']
+        R.expect('P2', pr.fn, 'answers to unknown exchanges are refused (NoExchange)', bool(noex), 'NoExchange constructed', 'NoExchange not constructed')
 
     # ---- c --------------------------------------------------------------------
-    for fn, edges_desc in ((TR + '::handle_accept_timeout_rx_packet', 'accept timeout'), (TR + '::handle_orphaned_rx_packet', 'orphan sweep')):
-        clo = closure_in(R, fn, ['Sessions::get_for_rx'])
-        trues = [bb for bb, k, p in prims.result_defs(clo) if k == 'const' and p == 1]
-        R.floor(f'`true` results in {fn}', len(trues), 1 if 'accept' in fn else 3)
-        clears = [t.bb for t in clo.calls() if t.d.get('f', '').endswith('::clear')]
-        R.floor(f'buf.clear() in {fn}', len(clears), 1)
-        miss = prims.precedes(clo, clears, trues)
-        R.expect('P3', clo.fn, f'{edges_desc}: every `true` result is preceded by packet.buf.clear()', not miss, 'clear precedes', f'`true` at {[clo.where(b) for b in miss]} without clearing the buffer')
-        others = [(bb, k) for bb, k, p in prims.result_defs(clo) if k != 'const']
-        R.expect('P10', clo.fn, f'{edges_desc}: results are explicit constants', not others, 'ok', f'{others}')
-    at = closure_in(R, TR + '::handle_accept_timeout_rx_packet', ['Sessions::get_for_rx'])
-    trues = [bb for bb, k, p in prims.result_defs(at) if k == 'const' and p == 1]
-    dropped = [i for i, j, s in at.field_writes('role:' + ES)]
-    R.expect('P3', at.fn, 'accept timeout marks the exchange Dropped and notifies the closer', bool(dropped) and not prims.precedes(at, dropped, trues)
-             and any(c.endswith('Notification::notify') or c.endswith('::notify') for c in at.calls_summary), 'role = Dropped; exchange_dropped.notify()', 'missing Dropped write / notify')
-    R.cut('P2', at, 'discard on accept timeout', trues, 'the exchange waited longer than the accept deadline', lambda: R.call_guard(at, 'transport::mrp::ReliableMessage::has_rx_timed_out'))
-    orp = closure_in(R, TR + '::handle_orphaned_rx_packet', ['Sessions::get_for_rx'])
-    for callee, desc in (('transport::session::Sessions::get_for_rx', 'no session'), (SESS + '::get_exch_for_rx', 'no exchange')):
-        fe_ = _fail_edges(R, orp, callee)
-        trues = [bb for bb, k, p in prims.result_defs(orp) if k == 'const' and p == 1]
-        bad = [orp.where(f) for (f, t_) in fe_ if set(orp.ret_blocks()) & prims.reach(orp, (t_,), cut_blocks=set(trues))]
-        R.expect('P3', orp.fn, f'orphan sweep: {desc} -> the packet is dropped', bool(fe_) and not bad, 'None edge -> clear + true', f'None edge returns without dropping: {bad}')
-    R.cut('P2', orp, 'keep the packet (return false)', [bb for bb, k, p in prims.result_defs(orp) if k == 'const' and p == 0], 'session and exchange exist and the exchange is not dropped',
-          lambda: _fail_edges(R, orp, 'transport::exchange::Role::is_dropped_state'))
+    with R.clause('c'):
+        pass
+        for fn, edges_desc in ((TR + '::handle_accept_timeout_rx_packet', 'accept timeout'), (TR + '::handle_orphaned_rx_packet', 'orphan sweep')):
+            clo = closure_in(R, fn, ['Sessions::get_for_rx'])
+            trues = [bb for bb, k, p in prims.result_defs(clo) if k == 'const' and p == 1]
+            R.floor(f'`true` results in {fn}', len(trues), 1 if 'accept' in fn else 3)
+            clears = [t.bb for t in clo.calls() if t.d.get('f', '').endswith('::clear')]
+            R.floor(f'buf.clear() in {fn}', len(clears), 1)
+            miss = prims.precedes(clo, clears, trues)
+            R.expect('P3', clo.fn, f'{edges_desc}: every `true` result is preceded by packet.buf.clear()', not miss, 'clear precedes', f'`true` at {[clo.where(b) for b in miss]} without clearing the buffer')
+            others = [(bb, k) for bb, k, p in prims.result_defs(clo) if k != 'const']
+            R.expect('P10', clo.fn, f'{edges_desc}: results are explicit constants', not others, 'ok', f'{others}')
+        at = closure_in(R, TR + '::handle_accept_timeout_rx_packet', ['Sessions::get_for_rx'])
+        trues = [bb for bb, k, p in prims.result_defs(at) if k == 'const' and p == 1]
+        dropped = [i for i, j, s in at.field_writes('role:' + ES)]
+        R.expect('P3', at.fn, 'accept timeout marks the exchange Dropped and notifies the closer', bool(dropped) and not prims.precedes(at, dropped, trues)
+                 and any(c.endswith('Notification::notify') or c.endswith('::notify') for c in at.calls_summary), 'role = Dropped; exchange_dropped.notify()', 'missing Dropped write / notify')
+        R.cut('P2', at, 'discard on accept timeout', trues, 'the exchange waited longer than the accept deadline', lambda: R.call_guard(at, 'transport::mrp::ReliableMessage::has_rx_timed_out'))
+        orp = closure_in(R, TR + '::handle_orphaned_rx_packet', ['Sessions::get_for_rx'])
+        for callee, desc in (('transport::session::Sessions::get_for_rx', 'no session'), (SESS + '::get_exch_for_rx', 'no exchange')):
+            fe_ = _fail_edges(R, orp, callee)
+            trues = [bb for bb, k, p in prims.result_defs(orp) if k == 'const' and p == 1]
+            bad = [orp.where(f) for (f, t_) in fe_ if set(orp.ret_blocks()) & prims.reach(orp, (t_,), cut_blocks=set(trues))]
+            R.expect('P3', orp.fn, f'orphan sweep: {desc} -> the packet is dropped', bool(fe_) and not bad, 'None edge -> clear + true', f'None edge returns without dropping: {bad}')
+        R.cut('P2', orp, 'keep the packet (return false)', [bb for bb, k, p in prims.result_defs(orp) if k == 'const' and p == 0], 'session and exchange exist and the exchange is not dropped',
+              lambda: _fail_edges(R, orp, 'transport::exchange::Role::is_dropped_state'))
 
     # ---- d --------------------------------------------------------------------
-    for adt in ('transport::exchange::Exchange', 'transport::PacketAccess', 'utils::sync::mutex::IfMutexGuard', 'transport::session::ReservedSession'):
-        R.expect('P5', adt, f'{adt.split("::")[-1]} has a Drop impl', F.has_impl('core::ops::drop::Drop', adt), 'impl Drop', 'no Drop impl')
-        R.expect('P5', adt, f'{adt.split("::")[-1]} is not Clone/Copy', not F.has_impl('core::clone::Clone', adt) and not F.has_impl('core::marker::Copy', adt), 'ok', 'Clone/Copy implemented')
-    ed = bodies_of(F, '<transport::exchange::Exchange as core::ops::drop::Drop>::drop')
-    R.expect('P3', 'Exchange::drop', 'dropping an Exchange removes it from its session', any(SESS + '::remove_exch' in b.calls_summary for b in ed), 'remove_exch', 'remove_exch not called')
-    pd = bodies_of(F, '<transport::PacketAccess<N> as core::ops::drop::Drop>::drop')
-    R.floor('PacketAccess::drop bodies', len(pd), 1)
-    R.expect('P3', 'PacketAccess::drop', 'dropping an armed PacketAccess clears the buffer', any(any(c.endswith('::clear') for c in b.calls_summary) for b in pd), 'buf.clear()', 'no clear in Drop')
-    holders = 0
-    for b in F.bodies.values():
-        if not b.focus or b.kind != 'coroutine' or not b.fn.startswith(('transport::TransportRunner', 'transport::exchange::', 'transport::Transport')):
-            continue
-        pals = [l for l in range(len(b.locals)) if b.local_ty(l).startswith('transport::PacketAccess<')]
-        if not pals:
-            continue
-        arm = [t.bb for t in b.calls('transport::PacketAccess::clear_on_drop') if t.d['a'][1].get('k', {}).get('v') == 1]
-        for l in pals:
-            acq = []
-            for (bb, idx, kind, payload) in b.defs.get(l, ()):
-                if b.is_cleanup(bb) or kind != 'assign':
-                    continue
-                rv = payload[1]
-                src = op_place(rv['a'][0]) if rv.get('op') == 'use' else None
-                if src and len(src) == 1 and src[0] in pals:
-                    continue   # a move between two slot locals is not a new acquisition
-                acq.append(bb)
-            if not acq:
+    with R.clause('d'):
+        pass
+        for adt in ('transport::exchange::Exchange', 'transport::PacketAccess', 'utils::sync::mutex::IfMutexGuard', 'transport::session::ReservedSession'):
+            R.expect('P5', adt, f'{adt.split("::")[-1]} has a Drop impl', F.has_impl('core::ops::drop::Drop', adt), 'impl Drop', 'no Drop impl')
+            R.expect('P5', adt, f'{adt.split("::")[-1]} is not Clone/Copy', not F.has_impl('core::clone::Clone', adt) and not F.has_impl('core::marker::Copy', adt), 'ok', 'Clone/Copy implemented')
+        ed = bodies_of(F, '<transport::exchange::Exchange as core::ops::drop::Drop>::drop')
+        R.expect('P3', 'Exchange::drop', 'dropping an Exchange removes it from its session', any(SESS + '::remove_exch' in b.calls_summary for b in ed), 'remove_exch', 'remove_exch not called')
+        pd = bodies_of(F, '<transport::PacketAccess<N> as core::ops::drop::Drop>::drop')
+        R.floor('PacketAccess::drop bodies', len(pd), 1)
+        R.expect('P3', 'PacketAccess::drop', 'dropping an armed PacketAccess clears the buffer', any(any(c.endswith('::clear') for c in b.calls_summary) for b in pd), 'buf.clear()', 'no clear in Drop')
+        holders = 0
+        for b in F.bodies.values():
+            if not b.focus or b.kind != 'coroutine' or not b.fn.startswith(('transport::TransportRunner', 'transport::exchange::', 'transport::Transport')):
                 continue
-            holders += 1
-            drops = [i for i, blk in enumerate(b.bbs) if blk['t']['t'] == 'drop' and blk['t']['pl'][0] in pals and not blk.get('c')]
-            moved = [i for i, j, st in b.stmts() if st[1].get('op') in ('use', 'agg') and any(op_place(a) and op_place(a)[0] == l and 'm' in a for a in st[1].get('a', ()))]
-            ys = prims.yields_between(b, acq, set(arm) | set(drops) | set(moved))
-            R.expect('P3', b.fn, f'packet slot `{b.local_name(l) or l}` acquired at {b.where(acq[0])}: armed with clear_on_drop(true), released or handed on before the next await', not ys,
-                     'no await while the slot is held unarmed', f'an await at {[b.where(y) for y in ys][:3]} can cancel the task while the slot is held unarmed: the packet would stay in the slot forever',
-                     b.where(acq[0]))
-    R.floor('packet slot holders', holders, 5)
+            pals = [l for l in range(len(b.locals)) if b.local_ty(l).startswith('transport::PacketAccess<')]
+            if not pals:
+                continue
+            arm = [t.bb for t in b.calls('transport::PacketAccess::clear_on_drop') if t.d['a'][1].get('k', {}).get('v') == 1]
+            for l in pals:
+                acq = []
+                for (bb, idx, kind, payload) in b.defs.get(l, ()):
+                    if b.is_cleanup(bb) or kind != 'assign':
+                        continue
+                    rv = payload[1]
+                    src = op_place(rv['a'][0]) if rv.get('op') == 'use' else None
+                    if src and len(src) == 1 and src[0] in pals:
+                        continue   # a move between two slot locals is not a new acquisition
+                    acq.append(bb)
+                if not acq:
+                    continue
+                holders += 1
+                drops = [i for i, blk in enumerate(b.bbs) if blk['t']['t'] == 'drop' and blk['t']['pl'][0] in pals and not blk.get('c')]
+                moved = [i for i, j, st in b.stmts() if st[1].get('op') in ('use', 'agg') and any(op_place(a) and op_place(a)[0] == l and 'm' in a for a in st[1].get('a', ()))]
+                ys = prims.yields_between(b, acq, set(arm) | set(drops) | set(moved))
+                R.expect('P3', b.fn, f'packet slot `{b.local_name(l) or l}` acquired at {b.where(acq[0])}: armed with clear_on_drop(true), released or handed on before the next await', not ys,
+                         'no await while the slot is held unarmed', f'an await at {[b.where(y) for y in ys][:3]} can cancel the task while the slot is held unarmed: the packet would stay in the slot forever',
+                         b.where(acq[0]))
+        R.floor('packet slot holders', holders, 5)
 
     # ---- e --------------------------------------------------------------------
-    li = async_body(R, 'utils::sync::mutex::IfMutex::lock_if')
-    guards = [i for i, j, s in li.aggregates('utils::sync::mutex::IfMutexGuard')]
-    R.floor('IfMutexGuard construction in lock_if', len(guards), 1)
-    waits = [t for t in li.calls() if t.d.get('f', '').endswith('Signal::wait')]
-    R.floor('Signal::wait in lock_if', len(waits), 1)
-    tr = prims.track_result(F, li, waits[0])
-    ready = [i for i, j, s in li.stmts() if len(s[0]) == 1 and s[0][0] in {l for l, tag in tr.locals.items() if tag[0] == 'val'} and s[1].get('op') == 'use' and op_place(s[1]['a'][0]) and '@Ready' in op_place(s[1]['a'][0])]
-    R.floor('completion of wait in lock_if', len(ready), 1)
-    ys = prims.yields_between(li, ready, guards)
-    R.expect('P3', li.fn, 'no await between acquiring the lock flag and constructing the guard', not ys, 'guard built immediately after the wait completes', f'await at {[li.where(y) for y in ys]}')
-    R.constructors_confined('P1', 'utils::sync::mutex::IfMutexGuard', {'utils::sync::mutex::IfMutex::lock_if', 'utils::sync::mutex::IfMutex::try_lock', 'utils::sync::mutex::IfMutex::try_lock_if', 'utils::sync::mutex::IfMutex::with'})
-    gd = bodies_of(F, '<utils::sync::mutex::IfMutexGuard<T, M> as core::ops::drop::Drop>::drop')
-    R.floor('IfMutexGuard::drop bodies', len(gd), 1)
-    R.expect('P3', 'IfMutexGuard::drop', 'dropping the guard releases the flag through the signal', any(any(c.endswith('Signal::modify') or c.endswith('Signal::signal') for c in b.calls_summary) for b in gd), 'state.modify(..)', 'no release in Drop')
-    wc = closure_in(R, 'utils::sync::mutex::IfMutex::lock_if', ['UnsafeCell::get'])
-    sets = [i for i, j, s in wc.stmts() if s[1].get('op') == 'use' and s[1]['a'][0].get('k', {}).get('v') == 1 and any(x == '*' for x in s[0][1:])]
-    somes = [bb for bb, k, p in prims.result_defs(wc) if k == 'agg' and p.get('var') == 'Some']
-    R.expect('P2', wc.fn, 'the lock is reported acquired only after setting locked = true', bool(sets) and bool(somes) and not prims.precedes(wc, sets, somes), '*locked = true precedes Some(())', 'Some(()) reachable without setting the flag')
+    with R.clause('e'):
+        pass
+        li = async_body(R, 'utils::sync::mutex::IfMutex::lock_if')
+        guards = [i for i, j, s in li.aggregates('utils::sync::mutex::IfMutexGuard')]
+        R.floor('IfMutexGuard construction in lock_if', len(guards), 1)
+        waits = [t for t in li.calls() if t.d.get('f', '').endswith('Signal::wait')]
+        R.floor('Signal::wait in lock_if', len(waits), 1)
+        tr = prims.track_result(F, li, waits[0])
+        ready = [i for i, j, s in li.stmts() if len(s[0]) == 1 and s[0][0] in {l for l, tag in tr.locals.items() if tag[0] == 'val'} and s[1].get('op') == 'use' and op_place(s[1]['a'][0]) and '@Ready' in op_place(s[1]['a'][0])]
+        R.floor('completion of wait in lock_if', len(ready), 1)
+        ys = prims.yields_between(li, ready, guards)
+        R.expect('P3', li.fn, 'no await between acquiring the lock flag and constructing the guard', not ys, 'guard built immediately after the wait completes', f'await at {[li.where(y) for y in ys]}')
+        R.constructors_confined('P1', 'utils::sync::mutex::IfMutexGuard', {'utils::sync::mutex::IfMutex::lock_if', 'utils::sync::mutex::IfMutex::try_lock', 'utils::sync::mutex::IfMutex::try_lock_if', 'utils::sync::mutex::IfMutex::with'})
+        gd = bodies_of(F, '<utils::sync::mutex::IfMutexGuard<T, M> as core::ops::drop::Drop>::drop')
+        R.floor('IfMutexGuard::drop bodies', len(gd), 1)
+        R.expect('P3', 'IfMutexGuard::drop', 'dropping the guard releases the flag through the signal', any(any(c.endswith('Signal::modify') or c.endswith('Signal::signal') for c in b.calls_summary) for b in gd), 'state.modify(..)', 'no release in Drop')
+        wc = closure_in(R, 'utils::sync::mutex::IfMutex::lock_if', ['UnsafeCell::get'])
+        sets = [i for i, j, s in wc.stmts() if s[1].get('op') == 'use' and s[1]['a'][0].get('k', {}).get('v') == 1 and any(x == '*' for x in s[0][1:])]
+        somes = [bb for bb, k, p in prims.result_defs(wc) if k == 'agg' and p.get('var') == 'Some']
+        R.expect('P2', wc.fn, 'the lock is reported acquired only after setting locked = true', bool(sets) and bool(somes) and not prims.precedes(wc, sets, somes), '*locked = true precedes Some(())', 'Some(()) reachable without setting the flag')
 
 
 def _fail_edges(R, body, callee):
     e = set()
     sites = body.calls(callee)
     if not sites:
-        from run import GuardMissing
+        from facts import GuardMissing
         raise GuardMissing(f'{body.fn}: no call of {callee}')
     for t in sites:
         e |= prims.track_result(R.facts, body, t).failure
